@@ -39,6 +39,9 @@ class PGen:
             out.append(s)
             if s["s"] in ("break", "continue", "return"):
                 break
+            if s["s"] == "for" and s.get("shadow") and self.rng.random() < 0.6:
+                # the initialiser of this loop shadows an outer variable: read the outer one again after the loop
+                out.append({"s": "yieldx", "x": s["shadow"]})
         return out
 
     def simple(self, ctx):
@@ -219,6 +222,8 @@ class PGen:
                 # 'for x := …; c; x++ { … }': the rewriter hoists a ':=' initialiser into a fresh block around the loop
                 outer = list(ctx["vars"])
                 x = r.choice(outer) if outer and r.random() < 0.4 else self.var()
+                if x in outer:
+                    s["shadow"] = x
                 s["init"] = {"s": "decl", "x": x, "id": self.fresh()}
                 if r.random() < 0.5:
                     s["post"] = {"s": "inc", "x": x}
